@@ -16,6 +16,7 @@ type pfArg struct {
 }
 
 var pfArgs = []pfArg{
+	{"string", S("12.50"), "12.50"}, {"string", S("7"), "7"}, {"string", S("-3"), "-3"}, {"string", S("日本橋"), "日本橋"}, {"string", S("ééé"), "ééé"},
 	{"string", S("ab"), "ab"}, {"string", S(""), ""}, {"string", S("héllo"), "héllo"}, {"string", S("a longer string"), "a longer string"},
 	{"number", N("7"), "7"}, {"number", N("3.25"), "3.25"}, {"number", &Unary{Op: "-", X: N("12.5")}, "-12.5"}, {"number", N("1000000"), "1000000"},
 	{"bool", &BoolLit{V: true}, "true"}, {"null", &NullLit{}, "null"},
@@ -141,7 +142,7 @@ func c18Random(c *Case) {
 
 // law on the implementation alone: one directive, field length = max(|width|, len(rendering)), rendering at the right end
 func c18Matrix(c *Case) {
-	widths := []int{0, 1, 2, 3, 5, 8, 10, 15, 40, 4096, 65536}
+	widths := []int{0, 1, 2, 3, 4, 5, 7, 8, 10, 15, 40, 64, 66, 69, 71, 128, 131, 133, 4096, 65536}
 	for _, a := range pfArgs {
 		for _, code := range []string{"s", "f", "v"} {
 			okKind := code == "v" || (code == "s" && a.kind == "string") || (code == "f" && a.kind == "number")
@@ -196,7 +197,7 @@ func c18Matrix(c *Case) {
 		}
 	}
 	// error forms: nothing of the printf is written, earlier output is kept
-	for _, f := range []string{"abc %", "abc %5", "x%-", "%s %d", "%q", "%65537s", "%-65537s", "%99999999999999999999s", "%18446744073709551621s", "%9999999999999999999s", "%4294967301s", "%s %s", "lit %f", "%5"} {
+	for _, f := range []string{"abc %", "abc %5", "x%-", "%s %d", "%q", "%*s", "%-*s", "%*f", "%.2f", "%5.1f", "%+5s", "% 5s", "%#v", "%65537s", "%-65537s", "%99999999999999999999s", "%18446744073709551621s", "%9999999999999999999s", "%4294967301s", "%s %s", "lit %f", "%5"} {
 		prog := fmt.Sprintf("BEGIN { printf('before|'); printf('%s', 'a'); print 'unreachable' }", f)
 		lib := RunLib(prog, nil, nil, RunOpts{})
 		c.NonTrivial("err:" + f)
@@ -229,7 +230,7 @@ func c18Cases(tier string) int {
 func init() {
 	register(&Prop{
 		ID: "C18", Level: "exploration",
-		Rule:     "enumerated: directive (%s %f %v) x 13 arguments of every kind x 11 widths (0..65536) x {right-aligned, left-aligned, zero-padded}: field length = max(|width|, rendering length) with the rendering at the correct end, wrong-kind arguments are runtime errors that write nothing (law on the implementation alone); 15 error forms (dangling %, dangling width, lone -, unknown codes, width beyond the limit, missing argument, non-string format) after earlier output; sampled: format strings from a grammar (literal runs incl. multi-byte and escapes, 1-5 directives with widths of either sign / leading zero / at the rendering length +-1 / beyond the limit, %%, unknown codes, dangling forms) with exact / too few / too many arguments, wrapped between two other printfs, compared byte for byte with the reference formatter. Non-trivial = a directive with a width, or an error case; distinct by program.",
+		Rule:     "enumerated: directive (%s %f %v) x 18 arguments of every kind x 20 widths (0..65536) x {right-aligned, left-aligned, zero-padded}: field length = max(|width|, rendering length) with the rendering at the correct end, wrong-kind arguments are runtime errors that write nothing (law on the implementation alone); 15 error forms (dangling %, dangling width, lone -, unknown codes, width beyond the limit, missing argument, non-string format) after earlier output; sampled: format strings from a grammar (literal runs incl. multi-byte and escapes, 1-5 directives with widths of either sign / leading zero / at the rendering length +-1 / beyond the limit, %%, unknown codes, dangling forms) with exact / too few / too many arguments, wrapped between two other printfs, compared byte for byte with the reference formatter. Non-trivial = a directive with a width, or an error case; distinct by program.",
 		NumCases: c18Cases,
 		Run: func(c *Case) {
 			if c.Idx == 0 {
